@@ -37,7 +37,12 @@ func main() {
 	repo := flag.String("repo", "/repo", "repository to analyse")
 	verif := flag.String("verif", "/verif", "verif directory (evidence, known findings)")
 	list := flag.Bool("list", false, "list implemented properties")
+	dbg := flag.String("debug-explore", "", "development aid: run the bare explorer on a function spec")
 	flag.Parse()
+	if *dbg != "" {
+		debugExplore(*repo, *dbg)
+		return
+	}
 	if *list {
 		var ids []string
 		for id := range registry {
